@@ -1,7 +1,7 @@
 """Property -> rules registry (DESIGN.md sections 0, 4, 5)."""
 import copy
 
-from rules import g_thread, g_cover, g_alt, g_struct, g_lex, k_keywords, t_tree, x_pp, x_calls, w_api, s_state, p_panic
+from rules import x_emit, g_thread, g_cover, g_alt, g_struct, g_lex, k_keywords, t_tree, x_pp, x_calls, w_api, s_state, p_panic
 
 TRUSTED_BASE = [
     'rustc front end / MIR construction (nightly 1.97) and syn 2 as parsers of the Rust sources',
@@ -14,7 +14,7 @@ _cache = {}
 
 MODULES = {
     'g_thread': g_thread.run, 'g_cover': g_cover.run, 'g_alt': g_alt.run, 'g_struct': g_struct.run,
-    'g_lex': g_lex.run, 's_state': s_state.run, 'p_panic': p_panic.run,
+    'x_emit': x_emit.run, 'g_lex': g_lex.run, 's_state': s_state.run, 'p_panic': p_panic.run,
     'k_keywords': k_keywords.run, 't_tree': t_tree.run, 'x_pp': x_pp.run, 'x_calls': x_calls.run, 'w_api': w_api.run,
 }
 # rule id -> module that computes it
@@ -30,7 +30,7 @@ RULE_HOME = {
     'W1': 'w_api', 'W2': 'w_api', 'W3': 'w_api', 'W4': 'w_api', 'W5': 'w_api',
     'G2': 'g_lex', 'G4': 'g_lex',
     'S1': 's_state', 'S2': 's_state', 'S3': 's_state', 'S4': 's_state', 'S5': 's_state', 'S6': 's_state', 'S7': 's_state',
-    'P1': 'p_panic',
+    'P1': 'p_panic', 'X4': 'x_emit',
 }
 
 
@@ -330,6 +330,33 @@ PROPS = {
         'level_note': '',
         'technique': 'MIR static/effect inventory (shared-state and global-effect freedom)',
         'needs_mir': True,
+    },
+    'C06': {
+        'rules': [rule('X4', drop=['strip-']), rule('X1'), rule('G10')],
+        'explanation': 'Restricted to the directive-free part of the pp type graph (SourceDescription::{Comment, StringLiteral, NotDirective, '
+                       'EscapedIdentifier} and their trivia) every leaf is emitted exactly once: each variant has an emitting arm (X4b), an '
+                       'arm that pushes its whole node either skips the node, or suppresses exactly the descendants that would emit '
+                       'again, or the node is a single leaf (X4a); each emission records its own range as origin (X1) — identity on text '
+                       'and offsets; the preprocessor applies all_consuming to pp_parser, so nothing is dropped silently (G10).',
+        'decided': 'X4a X4b X1 G10',
+        'not_decided': 'the rejection clause (which inputs pp_parser rejects); the fixed-point clause (a relation between two runs)',
+        'assumptions': ['below a CompilerDirective node white_space yields only WhiteSpace::Space (premise checked from the white_space body and the begin/end_directive bracket)'],
+        'level_text': 'Arm-by-arm emission analysis over the CST type graph: each arm that can emit a leaf twice or a kind without handler is named.',
+        'level_note': 'partial; the known double emission after string literals / escaped identifiers is frozen in golden files',
+        'technique': 'type-graph reachability + per-handler effect summary (exactly-once emission)',
+    },
+    'C18': {
+        'rules': [rule('X9'), rule('X4')],
+        'explanation': 'strip_comments reaches every nested run unchanged (X9: includes, macro expansion, `include via macro); under the flag '
+                       'the only arm whose behaviour changes is the Comment arm, which emits a separator in place of the comment so '
+                       'that neighbouring tokens are not joined; no arm that emits non-comment text is disabled by the flag; whole-node '
+                       'pushes that can still contain a comment are reported (X4c, X4a).',
+        'decided': 'X9 X4',
+        'not_decided': 'equality of the token sequences of two runs (relation between executions)',
+        'assumptions': [],
+        'level_text': 'Flag-threading lint + emission-class analysis under strip mode.',
+        'level_note': 'partial',
+        'technique': 'named-parameter threading lint + per-handler emission classes under the flag',
     },
 }
 
